@@ -162,6 +162,10 @@ class Scheduler(object):
         os.close(p._go_r)
         os.close(p._st_w)
         p._go_r = p._st_w = None
+        # wait until the child has really reached its parking spot: a kill "before work" then
+        # always hits the same instant, whatever the OS scheduler does
+        if self._wait_status(p) != b'r':
+            raise HarnessError('worker did not report ready')
         self.procs.append(p)
         k.all_procs.append(p)
         n_in = len(self.inflight())
@@ -342,6 +346,7 @@ class SimProcess(RealProcess):
         if self._sim_sched is None:
             return RealProcess.run(self)
         KERNEL.enter_child(self)
+        os.write(self._st_w, b'r')        # tell the scheduler we are parked (makes 'parked' exact)
         os.read(self._go_r, 1)            # parked until the scheduler releases us
         KERNEL.child_point('before')
         RealProcess.run(self)
@@ -970,6 +975,8 @@ def write_set_conflicts(sched, trace_dir):
         for r in recs:
             if r.get('ev') != 'io':
                 continue
+            if r['kind'] in ('mkdtemp', 'mkstemp'):
+                continue        # creation of a fresh unique name (the event carries only the pattern)
             if r['kind'] in WRITE_KINDS:
                 ws.add(r['path'])
             else:
